@@ -10,8 +10,10 @@ UNITS = {
 
 PROPS = {
     "C07": dict(tests=[
-        # one case = 2-5 (thorough 2-8) independent node histories of 1-6 (1-10) calls, run concurrently
+        # one case = 2-5 (thorough 2-8) independent node histories of 1-6 (1-10) calls (create/assign/unassign/delete/load), run concurrently
         dict(unit="c07f_factory", test="TestVerifC07Factory", quick=1600, thorough=60000,
              shards_quick=16, shards_thorough=16, timeout_quick=900, timeout_thorough=3000),
+        # start-up side: GetAttachedNetworkInterface over the fake metadata service with lookup failures (one node per case)
+        dict(unit="c07f_factory", test="TestVerifC07FactoryAttached", quick=3000, thorough=100000),
     ]),
 }
